@@ -5541,6 +5541,10 @@ class TensorDictBase(MutableMapping):
             device = self.device
         elif not inplace:
             device = torch.device("cpu")
+            if metadata_dict is not None:
+                # the snapshot attached to the result says where the result lives (the file keeps
+                # the metadata of the source)
+                metadata_dict = _metadata_with_device(metadata_dict, "cpu")
         elif self.device is not None and self.device != torch.device("cpu"):
             self.clear_device_()
             device = None
@@ -13824,6 +13828,17 @@ def is_tensor_collection(datatype: type | Any) -> bool:
     if not isinstance(datatype, type):
         datatype = type(datatype)
     return _is_tensor_collection(datatype)
+
+
+def _metadata_with_device(metadata, device):
+    """A copy of the consolidated metadata where every tensordict records ``device``."""
+    out = dict(metadata)
+    if "device" in metadata["cls_metadata"]:
+        out["cls_metadata"] = dict(metadata["cls_metadata"], device=device)
+    for key, val in metadata.items():
+        if key not in ("cls", "non_tensors", "leaves", "cls_metadata"):
+            out[key] = _metadata_with_device(val, device)
+    return out
 
 
 def _default_is_leaf(cls: Type) -> bool:
